@@ -516,6 +516,56 @@ func checkUnionNode(w *World, r *Result) {
 		}
 		return true
 	})
+	// the node itself is built exactly for the entries of the union table: wherever `&Union{…}` is written, the way
+	// there passes the comma-ok of a lookup in that table (an interface without implementers is not a union)
+	for _, cf := range calleeClosure(w, fi, 2) {
+		if cf.Pkg != fi.Pkg || cf.Decl.Body == nil {
+			continue
+		}
+		ci := cf.Pkg.TypesInfo
+		ast.Inspect(cf.Decl.Body, func(x ast.Node) bool {
+			lit, ok := x.(*ast.CompositeLit)
+			if !ok {
+				return true
+			}
+			if t := ci.TypeOf(lit); t == nil || !strings.HasSuffix(t.String(), "analysis.Union") {
+				return true
+			}
+			inTable := false
+			var conds []pcondAt
+			if cs, _, ok := interConds(w, fi, cf, lit); ok {
+				conds = cs
+			} else {
+				for _, c := range pathConds(cf.Decl, lit) {
+					conds = append(conds, pcondAt{c, cf})
+				}
+			}
+			for _, c := range conds {
+				id := identOf(c.expr)
+				if id == nil || !c.truth {
+					continue
+				}
+				inf := c.fn.Pkg.TypesInfo
+				okObj := objOf(inf, id)
+				ast.Inspect(c.fn.Decl.Body, func(y ast.Node) bool {
+					as, isAs := y.(*ast.AssignStmt)
+					if !isAs || len(as.Lhs) != 2 || len(as.Rhs) != 1 {
+						return true
+					}
+					if l := identOf(as.Lhs[1]); l != nil && objOf(inf, l) == okObj {
+						if ix, isIx := ast.Unparen(as.Rhs[0]).(*ast.IndexExpr); isIx && strings.HasSuffix(es(ix.X), ".unions") {
+							inTable = true
+						}
+					}
+					return true
+				})
+			}
+			r.cond(inTable, "AGR-C11u", cf.Name, "a Union node is built only for an entry of the union table", w.Pos(lit.Pos()),
+				"the construction is reached under the comma-ok of a lookup in ctx.unions",
+				"a Union node is built without the type having been found in the union table (e.g. for every interface): an interface nobody implements becomes a union without members, which the property excludes")
+			return true
+		})
+	}
 	r.cond(good, "AGR-C11u", fi.Name, "Union.Members = handleType of each table member, in order", pos, "one append per element of ctx.unions[name], nothing else in the loop", "the Union node's members are not exactly the analysed table members in table order")
 }
 
